@@ -473,4 +473,129 @@ Section LigeroFacts.
       by (rewrite <- (map_id (eq_table (lpt ++ rpt))) at 1; apply map_ext; intros e; ring).
     rewrite E. ring.
   Qed.
+  (* ---------------- shape: what an answered check implies about the proof ---------------- *)
+  Lemma ip_loop_ok_len (vecs : list (list F * list F)) : forall idx cols, ip_loop vecs cols idx = Ok tt -> (length idx <= length cols)%nat.
+  Proof.
+    induction idx as [|q idx IH]; intros cols H; [cbn; lia|].
+    destruct cols as [|c cols]; [cbn in H; discriminate|]. cbn [ip_loop] in H.
+    destruct (forallb _ vecs); [|discriminate]. specialize (IH cols H). cbn [length]. lia.
+  Qed.
+  Lemma path_loop_ok_len cext : forall idx cols paths, path_loop cext cols idx paths = Ok tt ->
+    (length idx <= length cols)%nat -> (length idx <= length paths)%nat.
+  Proof.
+    induction idx as [|q idx IH]; intros cols paths H L; [cbn; lia|].
+    destruct cols as [|c cols]; [cbn in L; lia|]. cbn [path_loop] in H.
+    destruct paths as [|p paths]; [discriminate|].
+    destruct (negb (lpt_index p =? q)%nat); [discriminate|]. destruct (negb (path_verifies cext p c)); [discriminate|].
+    specialize (IH cols paths H ltac:(cbn in L; lia)). cbn [length]. lia.
+  Qed.
+
+  (* a proof with a vector of another length, a missing or mis-sized well-formedness vector, or fewer columns / paths
+     than queried positions is never answered with a verdict *)
+  Theorem ligero_check_shape wf n_cols n_ext omega cext a b value pf r idx res :
+    l_check_g wf n_cols n_ext omega cext a b value pf r idx = Ok res ->
+    length (lf_v pf) = n_cols /\
+    (wf = true -> exists w, lf_wf pf = Some w /\ length w = n_cols) /\
+    (length idx <= length (lf_cols pf))%nat /\ (length idx <= length (lf_paths pf))%nat.
+  Proof.
+    intros H. unfold l_check_g in H.
+    destruct (Nat.eqb_spec (length (lf_v pf)) n_cols) as [Lv|]; cbn [negb] in H; [|discriminate].
+    split; [exact Lv|].
+    assert (Hw : wf = true -> exists w, lf_wf pf = Some w /\ length w = n_cols).
+    { intros ->. destruct (lf_wf pf) as [w|]; cbn [bind] in H; [|discriminate].
+      destruct (Nat.eqb_spec (length w) n_cols) as [Lw|]; cbn [negb bind] in H; [|discriminate]. exists w. split; [reflexivity|exact Lw]. }
+    split; [exact Hw|].
+    match type of H with context [bind ?X _] => destruct X as [out| |] eqn:Eo end; cbn [bind] in H; try discriminate.
+    destruct (path_loop _ (lf_cols pf) idx (lf_paths pf)) as [[]| |] eqn:Ep; cbn [bind] in H; try discriminate.
+    match type of H with context [ip_loop ?V _ _] => destruct (ip_loop V (lf_cols pf) idx) as [[]| |] eqn:Ei end; cbn [bind] in H; try discriminate.
+    pose proof (ip_loop_ok_len _ _ _ Ei) as L1. split; [exact L1|]. exact (path_loop_ok_len _ _ _ _ Ep L1).
+  Qed.
+  (* ---------------- any linear code: completeness from the column relation ---------------- *)
+  Section AnyLinearCode.
+    Variable enc : list F -> list F.
+    Variables n_ext n_cols : nat.
+    Variable rows : list (list F).
+    Hypothesis enc_cols : forall v j, (j < n_ext)%nat -> ip v (col j (map enc rows)) = nth j (enc (rowcomb rows n_cols v)) 0.
+
+    Lemma ip_loop_honest_e (vs : list (list F)) : forall idx, Forall (fun i => (i < n_ext)%nat) idx ->
+      ip_loop (map (fun v => (v, enc (rowcomb rows n_cols v))) vs) (map (fun i => col i (map enc rows)) idx) idx = Ok tt.
+    Proof.
+      intros idx Hi. induction idx as [|q idx IH]; [reflexivity|].
+      inversion Hi as [|? ? Hq Hi']; subst. cbn [map ip_loop].
+      replace (forallb _ _) with true; [apply IH; exact Hi'|]. symmetry. apply forallb_forall.
+      intros lw Hin. apply in_map_iff in Hin. destruct Hin as (v & <- & _). cbn [fst snd].
+      rewrite (enc_cols v q Hq). apply feqb_refl.
+    Qed.
+
+    Theorem lincode_complete wf b r idx pf a :
+      l_open_e enc wf n_cols n_ext rows b r idx = Ok pf ->
+      l_check_e enc wf n_cols (map enc rows) a b (ip (lf_v pf) a) pf r idx = Ok true.
+    Proof.
+      intros H. unfold l_open_e in H.
+      assert (Hrm : forall v, row_mul rows n_cols v = if negb (length v =? length rows)%nat then Panic else Ok (rowcomb rows n_cols v))
+        by reflexivity.
+      destruct wf.
+      - rewrite !Hrm in H. destruct (negb (length r =? length rows)%nat); cbn [bind] in H; [discriminate|].
+        destruct (negb (length b =? length rows)%nat); cbn [bind] in H; [discriminate|].
+        destruct (existsb _ idx) eqn:Ex; [discriminate|]. injection H as <-.
+        assert (Hi : Forall (fun i => (i < n_ext)%nat) idx).
+        { apply Forall_forall. intros i Hin. destruct (Nat.ltb_spec i n_ext) as [|Hge]; [assumption|].
+          assert (existsb (fun i => (n_ext <=? i)%nat) idx = true) by (apply existsb_exists; exists i; split; [exact Hin|apply Nat.leb_le; exact Hge]).
+          congruence. }
+        unfold l_check_e. cbn [lf_v lf_wf lf_cols lf_paths].
+        unfold rowcomb at 1. rewrite map_length, seq_length, Nat.eqb_refl. cbn [negb bind].
+        unfold rowcomb at 1. rewrite map_length, seq_length, Nat.eqb_refl. cbn [negb bind].
+        rewrite path_loop_honest. cbn [bind].
+        pose proof (ip_loop_honest_e [r; b] idx Hi) as E. cbn [map] in E.
+        rewrite E. cbn [bind]. rewrite feqb_refl. reflexivity.
+      - cbn [bind] in H. rewrite !Hrm in H.
+        destruct (negb (length b =? length rows)%nat); cbn [bind] in H; [discriminate|].
+        destruct (existsb _ idx) eqn:Ex; [discriminate|]. injection H as <-.
+        assert (Hi : Forall (fun i => (i < n_ext)%nat) idx).
+        { apply Forall_forall. intros i Hin. destruct (Nat.ltb_spec i n_ext) as [|Hge]; [assumption|].
+          assert (existsb (fun i => (n_ext <=? i)%nat) idx = true) by (apply existsb_exists; exists i; split; [exact Hin|apply Nat.leb_le; exact Hge]).
+          congruence. }
+        unfold l_check_e. cbn [lf_v lf_wf lf_cols lf_paths].
+        unfold rowcomb at 1. rewrite map_length, seq_length, Nat.eqb_refl. cbn [negb bind].
+        rewrite path_loop_honest. cbn [bind].
+        pose proof (ip_loop_honest_e [b] idx Hi) as E. cbn [map] in E.
+        rewrite E. cbn [bind]. rewrite feqb_refl. reflexivity.
+    Qed.
+  End AnyLinearCode.
+
+  (* a code given by its generator matrix satisfies the column relation: it is linear by construction *)
+  Lemma mat_enc_nth G n_ext msg j : (j < n_ext)%nat -> nth j (mat_enc G n_ext msg) 0 = ip msg (col j G).
+  Proof.
+    intros H. unfold mat_enc.
+    assert (G0 : forall n s k, (k < n)%nat -> nth k (map (fun j0 => ip msg (col j0 G)) (seq s n)) 0 = ip msg (col (s + k) G)).
+    { induction n as [|n IH]; intros s k Hk; [lia|]. destruct k as [|k]; cbn [seq map nth].
+      - rewrite Nat.add_0_r. reflexivity.
+      - rewrite IH by lia. f_equal. f_equal. lia. }
+    rewrite G0 by exact H. reflexivity.
+  Qed.
+  Lemma mat_enc_cols G n_ext n_cols rows v j :
+    Forall (fun r => length r = n_cols) rows -> (j < n_ext)%nat ->
+    ip v (col j (map (mat_enc G n_ext) rows)) = nth j (mat_enc G n_ext (rowcomb rows n_cols v)) 0.
+  Proof.
+    intros Hr Hj. rewrite mat_enc_nth by exact Hj. unfold rowcomb. rewrite row_comb_ip by exact Hr.
+    f_equal. unfold col. rewrite map_map. apply map_ext. intros r0. apply mat_enc_nth. exact Hj.
+  Qed.
+
+  (* Brakedown (any generator matrix): the proof built by open passes check for the value <v, a> *)
+  Theorem brakedown_complete G wf n_cols n_ext rows point r idx pf a b :
+    Forall (fun r => length r = n_cols) rows ->
+    tensor_ml point n_cols = Ok (a, b) ->
+    l_open_bd G wf n_cols n_ext rows point r idx = Ok pf ->
+    l_check_bd G wf n_cols n_ext (map (mat_enc G n_ext) rows) point (ip (lf_v pf) a) pf r idx = Ok true.
+  Proof.
+    intros Hr Ht H. unfold l_open_bd in H. rewrite Ht in H. cbn [bind snd] in H.
+    pose proof (lincode_complete (mat_enc G n_ext) n_ext n_cols rows
+                  (fun v j Hj => mat_enc_cols G n_ext n_cols rows v j Hr Hj) wf b r idx pf a H) as C.
+    unfold l_check_bd. rewrite Ht. cbn [bind fst snd].
+    unfold l_check_e in C |- *.
+    destruct (negb (length (lf_v pf) =? n_cols)%nat); [discriminate|].
+    match type of C with context [bind ?X _] => destruct X as [out| |] end; cbn [bind] in C |- *; try discriminate.
+    destruct (path_loop _ (lf_cols pf) idx (lf_paths pf)) as [[]| |]; cbn [bind] in C |- *; try discriminate.
+    exact C.
+  Qed.
 End LigeroFacts.
